@@ -823,6 +823,16 @@ class Interp:
         ci = self.repo.find_class(name)
         if ci is not None:
             return VClass(ci)
+        # names of the enclosing class namespace (default values of parameters are evaluated there)
+        frc = st.frames[-1].cls if st.frames else None
+        while frc:
+            cinfo = self.repo.find_class(frc)
+            if cinfo is not None:
+                if name in cinfo.nested:
+                    return VClass(cinfo.nested[name])
+                if name in cinfo.consts:
+                    return self.lift(cinfo.consts[name])
+            frc = frc.rsplit('.', 1)[0] if '.' in frc else None
         if name in ('j1939', 'time', 'queue', 'secrets', 'np', 'numpy', 'logging', 'logger', 'sys', 'threading', 'can'):
             return VModule(name)
         if name in EXC_NAMES:
